@@ -984,6 +984,24 @@ func (e *SpecEnv) ufunApp(uf *UFunDecl, args []Expr) SV {
 	rs := e.w.sortOf(e.h.d, rty)
 	name := "uf_" + sanitize(uf.Name)
 	e.h.d.Fun(name, sorts, rs)
+	if rs == SSlc && len(ats) > 0 && e.h.emit != nil {
+		// a slice-valued spec function returns a well-formed slice value (0 <= len <= cap)
+		if e.h.ufunWF == nil {
+			e.h.ufunWF = map[string]bool{}
+		}
+		if !e.h.ufunWF[name] {
+			e.h.ufunWF[name] = true
+			var bs []Bound
+			var vs []*Term
+			for i, srt := range sorts {
+				bn := fmt.Sprintf("u!%s!%d", sanitize(uf.Name), i)
+				bs = append(bs, Bound{bn, srt})
+				vs = append(vs, &Term{bn, srt})
+			}
+			app := mk(rs, name, vs...)
+			e.h.emit(Forall(bs, And(Le(IntLit(0), SlcLen(app)), Le(SlcLen(app), SlcCap(app))), []*Term{app}))
+		}
+	}
 	if len(ats) == 0 {
 		return SV{T: &Term{name, rs}, Ty: rty}
 	}
